@@ -110,7 +110,7 @@ def kernel_limits(tier, seed, params):
         res["queries"].append({"name": f"impl!=spec:{name}", "result": q["result"], "time_s": q["time_s"], "engine": q["engine"]})
         tw = py2smt.solve(pre + [impl], timeout_s=30)
         tw2 = py2smt.solve(pre + [z3.Not(impl)], timeout_s=30)
-        if not (tw["result"] == "sat" and tw2["result"] == "sat"):
+        if "unsat" in (tw["result"], tw2["result"]):      # a timeout of the witness query is not a vacuity finding
             res["errors"].append(f"vacuity twin of {name}: {tw['result']}/{tw2['result']}")
         if q["result"] == "unsat":
             res["discharged"] += 1
